@@ -1,27 +1,43 @@
 ---------------------------- MODULE S3ListTrace ----------------------------
 (* Judge for C27: pages recorded from the real S3 gateway (harness/cmd/c27).
-   reset : present, zdirs (bucket content as observed: S3 HEAD per candidate key; folders from the filer)
-   page  : i (1 = first page of a loop), style, prefix, delim, maxkeys, after (what was sent as marker /
+   reset : present (bucket content as observed: S3 HEAD per candidate key), gw ("allowempty" = the gateway shows
+           empty folders)
+   page  : zdirs (folders the filer holds just before the page), i (1 = first page of a loop), style, prefix, delim, maxkeys, after (what was sent as marker /
            start-after / continuation-token), status, keys, cps, trunc, next
    end   : why = "done" | "cap" | "stuck" | "error"  (only "done" after a final page is accepted) *)
-EXTENDS S3List, TraceKit
+EXTENDS S3ListImpl, TraceKit
 
-TraceInit == Init /\ KitInit
+TraceInit == /\ present = {} /\ dirs = {} /\ allowEmpty = FALSE /\ devs = {}
+             /\ phase = "idle" /\ req = [style |-> "marker", prefix |-> <<>>, delim |-> "", maxkeys |-> 1, after |-> <<>>]
+             /\ seenK = {} /\ seenP = {} /\ pageNo = 0 /\ okv = TRUE
+             /\ prev = [status |-> 200, keys |-> <<>>, cps |-> <<>>, trunc |-> FALSE, next |-> <<>>]
+             /\ hist = <<>>
+             /\ KitInit
 
 TraceReset == /\ IsReset
-              /\ present' = ToSet(Ev.present) /\ dirs' = ToSet(Ev.zdirs)
+              /\ present' = ToSet(Ev.present) /\ dirs' = {} /\ allowEmpty' = (Ev.gw = "allowempty") /\ devs' = {}
               /\ phase' = "idle" /\ seenK' = {} /\ seenP' = {} /\ pageNo' = 0 /\ okv' = TRUE
-              /\ UNCHANGED <<req, prev, hist>>
+              \* every variable is re-initialised: paths that skipped the previous execution merge here
+              /\ req' = [style |-> "marker", prefix |-> <<>>, delim |-> "", maxkeys |-> 1, after |-> <<>>]
+              /\ prev' = [status |-> 200, keys |-> <<>>, cps |-> <<>>, trunc |-> FALSE, next |-> <<>>]
+              /\ hist' = <<>>
 TraceSkip == SkipStep /\ UNCHANGED vars
 
 EvReq == [style |-> Ev.style, prefix |-> Ev.prefix, delim |-> Ev.delim, maxkeys |-> Ev.maxkeys, after |-> Ev.after]
 EvResp == [status |-> Ev.status, keys |-> Ev.keys, cps |-> Ev.cps, trunc |-> Ev.trunc, next |-> Ev.next]
 
-TPage == /\ IsEvent("page") /\ Strict
-         /\ IF Ev.i = 1 THEN FirstPage(EvReq, EvResp)
-            ELSE NextPage([EvReq EXCEPT !.after = req.after], Ev.after, EvResp)
+EvDirs == ToSet(Ev.zdirs)
+LoopReq == IF Ev.i = 1 THEN EvReq ELSE [EvReq EXCEPT !.after = req.after]
+TPage == /\ IsEvent("page")
+         /\ \/ Strict /\ IF Ev.i = 1 THEN FirstPage(EvReq, EvDirs, EvResp)
+                                    ELSE NextPage(LoopReq, Ev.after, EvDirs, EvResp)
+            \/ \E S \in SUBSET {KFHidden, KFMarker} :
+                  DeviateAll(S) /\ DevPage(LoopReq, Ev.i = 1, Ev.after, EvDirs, EvResp, S)
          /\ UNCHANGED hist
-TEnd == IsEvent("end") /\ Strict /\ Ev.why = "done" /\ EndLoop /\ UNCHANGED hist
+TEnd == /\ IsEvent("end")
+        /\ \/ Strict /\ Ev.why = "done" /\ EndLoop
+           \/ Deviate(KFMarker) /\ Ev.why \in {"cap", "stuck"} /\ EndlessLoop
+        /\ UNCHANGED hist
 
 TraceNext == TraceReset \/ TraceSkip \/ TPage \/ TEnd
 TraceSpec == TraceInit /\ [][TraceNext]_<<vars, kitvars>>
